@@ -251,18 +251,31 @@ func run(ctx context.Context, f ComputeFunc) (*computation, error) {
 
 	childCtx := context.WithValue(ctx, computationKey{}, c)
 
-	// Compute f and write the results to the c
-	value, err := f(childCtx)
-	if err != nil {
+	// abandon gives up c, which has no value. A sub-computation (Cache) stays a
+	// dependency of its caller, which may handle the failure and go on: what
+	// the sub-computation read before it failed must still invalidate the
+	// caller, and is released with it. It is not cached.
+	abandon := func() {
 		if parent, ok := ctx.Value(computationKey{}).(*computation); ok {
-			// A sub-computation (Cache) that failed: its caller may handle the
-			// error and go on, so what the sub-computation read before it failed
-			// must still invalidate the caller. It stays a dependency of the
-			// caller (and is released with it); it is not cached.
 			c.node.addOut(&parent.node)
 		} else {
 			go c.node.release()
 		}
+	}
+
+	// Compute f and write the results to the c
+	returned := false
+	defer func() {
+		// f panicked (or ended the goroutine): the resources it registered
+		// would otherwise never be cleaned up.
+		if !returned {
+			abandon()
+		}
+	}()
+	value, err := f(childCtx)
+	returned = true
+	if err != nil {
+		abandon()
 		return nil, err
 	}
 
